@@ -23,6 +23,31 @@ from ..ref.c18_defs import ASSOCIATIVE, OPS
 TYPE = {"bv": "BitVector[{w}]", "u": "Unsigned[{w}]", "s": "Signed[{w}]", "bit": "Bit"}
 
 
+# cohdl text of the named ordering predicates of verif.ref.c18_defs.CMPS (operands: Unsigned / Signed values)
+CMP_TEXT = {
+    "lt": "lambda a, b: a < b",
+    "gt": "lambda a, b: a > b",
+    "slt": "lambda a, b: a.signed < b.signed",
+    "sgt": "lambda a, b: a.signed > b.signed",
+    "ult": "lambda a, b: a.unsigned < b.unsigned",
+    "ugt": "lambda a, b: a.unsigned > b.unsigned",
+    "shr1lt": "lambda a, b: (a >> 1) < (b >> 1)",
+    "shr1gt": "lambda a, b: (a >> 1) > (b >> 1)",
+}
+
+
+def cmp_alternatives(kind, w):
+    """explicit cmp= alternatives for operands of the given kind: natural, descending, the other
+    signedness (both directions), and an order in which neighbouring values tie"""
+    if kind == "u":
+        names = ["lt", "gt"]
+        if w >= 2:
+            names += ["slt", "sgt", "shr1lt", "shr1gt"]
+    else:
+        names = ["lt", "gt", "ult", "ugt"]
+    return names
+
+
 def tname(kind, w):
     return TYPE[kind].format(w=w)
 
@@ -102,6 +127,14 @@ def fam_unary(w):
                 yield inst(f"pad/w={w}/left={left}/right={right}/fill={fname}", "pad", A, [("bv", w + left + right)],
                            f"o0 <<= std.pad(a, left={left}, right={right}{ftxt})", "pad",
                            {"w": w, "left": left, "right": right, "fill": fch})
+    yield inst(f"pad/w={w}/left=omit/right=omit", "pad", A, [("bv", w)], "o0 <<= std.pad(a)", "pad",
+               {"w": w, "left": 0, "right": 0, "fill": "0"})
+    yield inst(f"pad/w={w}/left=2/right=omit", "pad", A, [("bv", w + 2)], "o0 <<= std.pad(a, left=2)", "pad",
+               {"w": w, "left": 2, "right": 0, "fill": "0"})
+    yield inst(f"pad/w={w}/left=omit/right=1/fill=Full", "pad", A, [("bv", w + 1)], "o0 <<= std.pad(a, right=1, fill=Full)", "pad",
+               {"w": w, "left": 0, "right": 1, "fill": "1"})
+    yield inst(f"pad/w={w}/positional", "pad", A, [("bv", w + 3)], "o0 <<= std.pad(a, 1, 2, Full)", "pad",
+               {"w": w, "left": 1, "right": 2, "fill": "1"})
     # single-argument concat returns a new vector
     yield inst(f"concat/w={w}/args=a", "concat", A, [("bv", w)], "o0 <<= std.concat(a)", "concat",
                {"widths": {"a": w}, "order": ["a"]})
@@ -117,6 +150,10 @@ def fam_unary(w):
         outs.append(("u", 5))
         body.append(f"o{nb} <<= Unsigned[5](len(r))")
         yield inst(f"batched/w={w}/n={n}", "batched", A, outs, body, "batched", {"w": w, "n": n})
+        if not partial:
+            for ap in ("True", "False"):
+                body2 = [f"r = std.batched(a, {n}, allow_partial={ap})"] + body[1:]
+                yield inst(f"batched/w={w}/n={n}/allow_partial={ap}", "batched", A, outs, body2, "batched", {"w": w, "n": n})
     # Mask.as_vector: apply(zeros, ones)
     yield inst(f"Mask.as_vector/w={w}/mask=a", "Mask", A, [("bv", w)], f"o0 <<= std.Mask(a).as_vector({w})",
                "apply_mask", {"w": w, "consts": {"vold": "0" * w, "vnew": "1" * w}, "ports": {"vmask": "a"}})
@@ -225,10 +262,36 @@ def fam_select_batch(n, b):
 # =============================================================================================
 def fam_clamp_ports(w, kind):
     I = [("val", kind, w), ("low", kind, w), ("high", kind, w)]
+    T = tname(kind, w)
     yield inst(f"clamp/{kind}{w}/bounds=ports", "clamp", I, [(kind, w)], "o0 <<= std.clamp(val, low, high)", "clamp",
                {"w": w, "kind": kind}, valid="clamp")
-    yield inst(f"clamp/{kind}{w}/bounds=ports/cmp=lt", "clamp", I, [(kind, w)],
-               "o0 <<= std.clamp(val, low, high, cmp=lambda a, b: a < b)", "clamp", {"w": w, "kind": kind}, valid="clamp")
+    yield inst(f"clamp/{kind}{w}/bounds=ports/kw", "clamp", I, [(kind, w)], "o0 <<= std.clamp(val, low=low, high=high)", "clamp",
+               {"w": w, "kind": kind}, valid="clamp")
+    # explicit cmp=: the range [low, high] and "less" / "greater" are meant w.r.t. cmp
+    for cn in cmp_alternatives(kind, w):
+        yield inst(f"clamp/{kind}{w}/bounds=ports/cmp={cn}", "clamp", I, [(kind, w)],
+                   f"o0 <<= std.clamp(val, low, high, cmp={CMP_TEXT[cn]})", "clamp", {"w": w, "kind": kind, "cmp": cn}, valid="clamp")
+    yield inst(f"clamp/{kind}{w}/bounds=ports/cmp=lt/positional", "clamp", I, [(kind, w)],
+               f"o0 <<= std.clamp(val, low, high, {CMP_TEXT['lt']})", "clamp", {"w": w, "kind": kind, "cmp": "lt"}, valid="clamp")
+    # compound operand: the order is the record's own __lt__ (default cmp) or a cmp= on its field
+    yield inst(f"clamp/{kind}{w}/record/cmp=default", "clamp", I, [(kind, w)],
+               f"o0 <<= std.clamp(Wrapped[{T}](val), Wrapped[{T}](low), Wrapped[{T}](high)).val", "clamp",
+               {"w": w, "kind": kind}, valid="clamp")
+    for cn, op in (("lt", "<"), ("gt", ">")):
+        yield inst(f"clamp/{kind}{w}/record/cmp=field_{cn}", "clamp", I, [(kind, w)],
+                   f"o0 <<= std.clamp(Wrapped[{T}](val), Wrapped[{T}](low), Wrapped[{T}](high), cmp=lambda p, q: p.val {op} q.val).val",
+                   "clamp", {"w": w, "kind": kind, "cmp": cn}, valid="clamp")
+
+
+def fam_clamp_narrow(w, kind):
+    """bounds of a narrower type are converted to the type of val"""
+    bw = w - 1
+    I = [("val", kind, w), ("low", "u", bw), ("high", "u", bw)]
+    P = {"w": w, "kind": kind, "bw": bw, "bkind": "u"}
+    yield inst(f"clamp/{kind}{w}/bounds=Unsigned[{bw}]ports", "clamp", I, [(kind, w)], "o0 <<= std.clamp(val, low, high)", "clamp",
+               P, valid="clamp")
+    yield inst(f"clamp/{kind}{w}/bounds=Unsigned[{bw}]ports/cmp=gt", "clamp", I, [(kind, w)],
+               f"o0 <<= std.clamp(val, low, high, cmp={CMP_TEXT['gt']})", "clamp", {**P, "cmp": "gt"}, valid="clamp")
 
 
 def fam_clamp_const(w, kind):
@@ -244,6 +307,10 @@ def fam_clamp_const(w, kind):
             if lo <= hi:
                 yield inst(f"clamp/{kind}{w}/low={lo}/high={hi}", "clamp", I, [(kind, w)], f"o0 <<= std.clamp(val, {lo}, {hi})",
                            "clamp", {"w": w, "kind": kind, "low": lo, "high": hi})
+            if lo >= hi:
+                yield inst(f"clamp/{kind}{w}/low={lo}/high={hi}/cmp=gt", "clamp", I, [(kind, w)],
+                           f"o0 <<= std.clamp(val, {lo}, {hi}, cmp={CMP_TEXT['gt']})",
+                           "clamp", {"w": w, "kind": kind, "low": lo, "high": hi, "cmp": "gt"})
 
 
 # =============================================================================================
@@ -279,13 +346,30 @@ def fam_list(n, w, kind):
         yield inst(f"{fn}/{tag}/tagged/key=first", fn, I, [(kind, w)] + idx,
                    [f"r = std.{fn}({tagged}, key=lambda p: p[0])", "o0 <<= r[0]", "o1 <<= r[1]"], "extremum",
                    {**P, "what": what, "outs": ["value", "index"]})
-        # explicit cmp argument with the opposite sense
-        opp = ">" if what == "min" else "<"
-        other = "max" if what == "min" else "min"
-        yield inst(f"{fn}/{tag}/cmp=opposite", fn, I, [(kind, w)], f"o0 <<= std.{fn}({xs}, cmp=lambda a, b: a {opp} b)", "extremum",
-                   {**P, "what": other, "outs": ["value"]})
-        yield inst(f"{ix}/{tag}/cmp=opposite", ix, I, idx, f"o0 <<= std.{ix}({xs}, cmp=lambda a, b: a {opp} b)", "extremum",
-                   {**P, "what": other, "outs": ["index"]})
+        # explicit cmp= argument (cmp(a, b): a is preferred to b), every alternative, every entry point
+        for cn in cmp_alternatives(kind, w):
+            ct = CMP_TEXT[cn]
+            PC = {**P, "what": what, "cmp": cn}
+            yield inst(f"{fn}/{tag}/cmp={cn}", fn, I, [(kind, w)], f"o0 <<= std.{fn}({xs}, cmp={ct})", "extremum",
+                       {**PC, "outs": ["value"]})
+            if n >= 2 and cn in ("gt", "slt", "ult"):
+                yield inst(f"{fn}/{tag}/form=args/cmp={cn}", fn, I, [(kind, w)], f"o0 <<= std.{fn}({star}, cmp={ct})", "extremum",
+                           {**PC, "outs": ["value"]})
+            yield inst(f"{e}/{tag}/cmp={cn}", e, I, idx + [(kind, w)],
+                       [f"r = std.{e}({xs}, cmp={ct})", "o0 <<= r[0]", "o1 <<= r[1]"], "extremum", {**PC, "outs": ["index", "value"]})
+            yield inst(f"{ix}/{tag}/cmp={cn}", ix, I, idx, f"o0 <<= std.{ix}({xs}, cmp={ct})", "extremum", {**PC, "outs": ["index"]})
+            # key= and cmp= together: the key extracts the compared field, cmp orders the keys
+            yield inst(f"{fn}/{tag}/tagged/key=first/cmp={cn}", fn, I, [(kind, w)] + idx,
+                       [f"r = std.{fn}({tagged}, key=lambda p: p[0], cmp={ct})", "o0 <<= r[0]", "o1 <<= r[1]"], "extremum",
+                       {**PC, "outs": ["value", "index"]})
+        # cmp= comparing one field of a compound element (no key=)
+        for cn, op in (("lt", "<"), ("gt", ">")):
+            yield inst(f"{fn}/{tag}/tagged/cmp=field_{cn}", fn, I, [(kind, w)] + idx,
+                       [f"r = std.{fn}({tagged}, cmp=lambda p, q: p[0] {op} q[0])", "o0 <<= r[0]", "o1 <<= r[1]"], "extremum",
+                       {**P, "what": what, "cmp": cn, "outs": ["value", "index"]})
+            yield inst(f"{e}/{tag}/tagged/cmp=field_{cn}", e, I, idx + [(kind, w)],
+                       [f"r = std.{e}({tagged}, cmp=lambda p, q: p[0] {op} q[0])", "o0 <<= r[0]", "o1 <<= r[1][0]"], "extremum",
+                       {**P, "what": what, "cmp": cn, "outs": ["index", "value"]})
         if kind == "u" and w >= 2:
             # keys on which different elements tie: floor(x/2) and the two low bits
             keys = [("shr1", "lambda e: e >> 1")]
@@ -335,8 +419,13 @@ def fam_list(n, w, kind):
                    {**P, "op": op})
         yield inst(f"binary_fold/{tag}/op={op}/right_fold", "binary_fold", I, out,
                    f"o0 <<= std.binary_fold({optxt[op]}, {xs}, right_fold=True)", "fold", {**P, "op": op, "right": True})
+        if op in ("sub", "concat"):
+            yield inst(f"binary_fold/{tag}/op={op}/right_fold=False", "binary_fold", I, out,
+                       f"o0 <<= std.binary_fold({optxt[op]}, {xs}, right_fold=False)", "fold", {**P, "op": op})
         if op in ASSOCIATIVE:
             for bs in (None, 1, 2, 3, 4):
+                if bs in (1, 4) and op not in ("add", "concat", "left", "right"):
+                    continue  # the extreme batch sizes: the order-sensitive operators and one arithmetic one
                 arg = "" if bs is None else f", batch_size={bs}"
                 yield inst(f"batched_fold/{tag}/op={op}/bs={bs}", "batched_fold", I, out,
                            f"o0 <<= std.batched_fold({optxt[op]}, {xs}{arg})", "fold", {**P, "op": op})
@@ -404,6 +493,9 @@ def fam_select_const(w, argkind):
             forms.append(("BitVector", lambda k: "BitVector[{}]('{}')".format(w, format(k, "0{}b".format(w)))))
         for fname, fk in forms:
             d = "{" + ", ".join(f"{fk(k)}: Unsigned[{vw}]({res[k]})" for k in keys) + "}"
+            if sname == "all" and fname != "int":
+                yield inst(f"select/x={argkind}{w}/keys={fname}/branches=all/default=omit", "select", I, [("u", vw)],
+                           f"o0 <<= std.select(x, {d})", "select", P)
             if argkind == "bv" and fname == "int":
                 continue  # integers are not BitVector literals
             if fname == "int" and sname not in ("all", "odd_desc"):
@@ -462,6 +554,8 @@ def instances(thorough: bool):
             for kind in "us":
                 if not (kind == "s" and w < 2):
                     out.extend(fam_clamp_ports(w, kind))
+                if w >= 2:
+                    out.extend(fam_clamp_narrow(w, kind))
         for kind in "us":
             if not (kind == "s" and w < 2):
                 out.extend(fam_clamp_const(w, kind))
